@@ -67,7 +67,7 @@ package badger
 //@ ensures [read-only] {C13} txncount() <= 1
 
 //@ func (*badgerStore).SetNode
-//@ property C12 C13
+//@ property C02 C12 C13
 //@ requires dbInv(s)
 //@ ensures [db-inv] {C12 C13} dbInv(s)
 //@ implements store.PoolStore.SetNode
@@ -145,7 +145,7 @@ package badger
 //@ pure chk(id store.NodeID, peers []string, k store.NodeID) int = ite(reported(peers, len(peers), k), kvget("store.Node", nodeKey(k)).LastSeen, kvmval("store.NodeID", "time.Time", peersKey(id), k))
 
 //@ func (*badgerStore).UpdateNodePeers
-//@ property C11 C12 C13
+//@ property C02 C11 C12 C13
 //@ requires dbInv(s)
 //@ ensures [db-inv] {C12 C13} dbInv(s)
 //@ implements store.PoolStore.UpdateNodePeers
